@@ -262,3 +262,7 @@ def show_row(row) -> str:
 
 def show_rows(rows) -> str:
     return "[" + ";".join(show_row(r) for r in rows) + "]"
+
+
+def show_row_dict(r: dict) -> str:
+    return "{" + ",".join(sorted(f"{k}={v}" for k, v in r.items())) + "}"
